@@ -48,6 +48,10 @@ func stagesOf(shape string) (st []stage, sources []string, sinks []string) {
 		return []stage{{"sa", "t0", "ta"}, {"sb", "t0", "tb"}}, []string{"t0"}, []string{"ta", "tb"}
 	case "fanin":
 		return []stage{{"sa", "ta", "t1"}, {"sb", "tb", "t1"}}, []string{"ta", "tb"}, []string{"t1"}
+	case "split1": // one stage whose handler returns two outputs per input
+		return []stage{{"split", "t0", "t1"}}, []string{"t0"}, []string{"t1"}
+	case "split2": // a splitting stage followed by a pass-through stage
+		return []stage{{"split", "t0", "t1"}, {"s2", "t1", "t2"}}, []string{"t0"}, []string{"t2"}
 	}
 	panic("unknown shape")
 }
@@ -108,6 +112,11 @@ func body(sp spec) {
 			}
 			out := m.Copy() // same lineage: the UUID travels through the pipeline
 			out.Metadata.Set("via", m.Metadata.Get("via")+st.name+">")
+			if st.name == "split" {
+				a, b := out, out.Copy()
+				a.UUID, b.UUID = m.UUID+"/a", m.UUID+"/b"
+				return []*message.Message{a, b}, nil
+			}
 			return []*message.Message{out}, nil
 		})
 	}
@@ -132,10 +141,15 @@ func body(sp spec) {
 	}()
 	<-r.Running()
 	// the source publisher runs on its own (a blocking GoChannel only returns once the pipeline acked)
-	published := map[string]bool{}
+	published := map[string]bool{} // the lineages expected at every sink
 	for _, src := range sources {
 		for i := 0; i < sp.N; i++ {
-			published[fmt.Sprintf("%s-m%d", src, i)] = true
+			u := fmt.Sprintf("%s-m%d", src, i)
+			if strings.HasPrefix(sp.Shape, "split") {
+				published[u+"/a"], published[u+"/b"] = true, true
+			} else {
+				published[u] = true
+			}
 		}
 	}
 	go func() {
@@ -215,6 +229,8 @@ func init() {
 		add(reg.Quick, 6, spec{Cfg: cfg, Shape: "fanout", N: 2, F: 2, C: -1, MaxPer: 3}, -1, 3)
 		add(reg.Quick, 6, spec{Cfg: cfg, Shape: "fanin", N: 1, F: 2, C: -1, MaxPer: 3}, -1, 3)
 		add(reg.Quick, 6, spec{Cfg: cfg, Shape: "chain3", N: 1, F: 2, C: -1, MaxPer: 2}, -1, 3)
+		add(reg.Quick, 6, spec{Cfg: cfg, Shape: "split1", N: 1, F: 2, C: -1, MaxPer: 4}, -1, 3)
+		add(reg.Quick, 6, spec{Cfg: cfg, Shape: "split2", N: 1, F: 2, C: -1, MaxPer: 3}, -1, 3)
 		// schedules with faults
 		add(reg.Quick, 20, spec{Cfg: cfg, Shape: "chain1", N: 1, F: 1, C: 1, MaxPer: 2}, 2, 1)
 		add(reg.Thorough, 60, spec{Cfg: cfg, Shape: "chain2", N: 1, F: 1, C: 0, MaxPer: 2}, 0, 1)
